@@ -22,7 +22,7 @@ ID = 'C09'
 TECHNIQUE = 'differential/metamorphic oracle over Hypothesis-generated streams: the same text through six containers (str, lines, lines with terminators, StringIO, file name, file object) x three line terminators x three separators must give the graphs that were written; dumps/loads and dump/load round trips'
 RULE = ('cases: streams of 0..4 well-formed graphs, each with 0..3 metadata keys (empty values, values with ; ( ) " # VT FF and '
         'non-ASCII separators NBSP U+3000 U+2028 U+2029 U+0085 U+001C-1E) rendered with a sampled indent/compact option, line '
-        'terminator in {LF, CRLF, CR}, separator in {blank line, newline, space}; plus raw comment lines (several keys per line, '
+        'terminator in {LF, CRLF, CR}, separator in {blank line, newline, space, nothing}; plus raw comment lines (several keys per line, '
         'junk before the first "::"). Non-trivial: >= 2 graphs with >= 1 metadata key, or a metadata value containing a '
         'non-ASCII separator or delimiter. Distinct by case content.')
 ASSUMPTIONS = ['file-like containers are opened the way load(path) opens files (universal newlines); io.StringIO(text, newline=None)',
@@ -52,7 +52,7 @@ TERM = {'LF': '\n', 'CRLF': '\r\n', 'CR': '\r'}
 
 def _build_text(case, m):
     term = TERM[case['term']]
-    sep = {'blank': term + term, 'newline': term, 'space': ' '}[case['sep']]
+    sep = {'blank': term + term, 'newline': term, 'space': ' ', 'none': ''}[case['sep']]
     parts = []
     expected = []
     for gspec in case['graphs']:
@@ -180,7 +180,7 @@ def _cases(draw):
             g['rawcomments'] = draw(st.lists(st.sampled_from(RAW), min_size=1, max_size=2))
         gs.append(g)
     return {'graphs': gs, 'model': spec, 'term': draw(st.sampled_from(['LF', 'CRLF', 'CR'])),
-            'sep': draw(st.sampled_from(['blank', 'newline', 'space'])),
+            'sep': draw(st.sampled_from(['blank', 'newline', 'space', 'none'])),
             'indent': draw(st.sampled_from([-1, None, 0, 2, 5])), 'compact': draw(st.booleans()),
             'final_newline': draw(st.booleans())}
 
